@@ -134,6 +134,26 @@ def strip_generics(path):
     return "".join(out)
 
 
+def reachable(prog, body):
+    """bodies reachable from `body` through resolved crate-local calls and the closures defined inside them"""
+    seen, work = {}, [body]
+    while work:
+        b = work.pop()
+        if b["id"] in seen:
+            continue
+        seen[b["id"]] = b
+        for o in prog.bodies.values():
+            if not o.get("promoted") and o["path"].startswith(b["path"] + "::{closure") and o["id"] not in seen:
+                work.append(o)
+        for bb in b["blocks"]:
+            t = bb["term"]
+            if t["k"] == "call" and not bb["cleanup"]:
+                r = t.get("resolved") or {}
+                if r.get("local") and r.get("id") in prog.bodies and r["id"] not in seen:
+                    work.append(prog.bodies[r["id"]])
+    return list(seen.values())
+
+
 def find_bodies(prog, pred):
     return [b for b in prog.bodies.values() if not b.get("promoted") and pred(b)]
 
